@@ -61,8 +61,9 @@ def virtual_time(clock):
 
 
 class Env:
-    def __init__(self, nservers=1, pieces=None, eintr=None, addrs=None, now=1_700_000_000, cas_start=0):
+    def __init__(self, nservers=1, pieces=None, eintr=None, addrs=None, now=1_700_000_000, cas_start=0, spec=None):
         self.clock = Clock(now)
+        self.spec = spec          # how the (first) server is spelled in the client's configuration, if not as its address
         self.net = FakeNet(pieces, eintr)
         self.addrs = list(addrs) if addrs else [("mc%d" % (i + 1), 11211) for i in range(nservers)]
         self.servers = []
@@ -79,14 +80,15 @@ class Env:
 
     def client(self, kind="client", **kw):
         kw.setdefault("socket_module", self.net)
+        spec = self.addrs[0] if self.spec is None else self.spec
         if kind == "client":
-            return Client(self.addrs[0], **kw)
+            return Client(spec, **kw)
         if kind == "pooled":
-            return PooledClient(self.addrs[0], **kw)
+            return PooledClient(spec, **kw)
         if kind == "hash":
-            return HashClient([self.addrs[0]] if "servers" not in kw else kw.pop("servers"), **kw)
+            return HashClient([spec] if "servers" not in kw else kw.pop("servers"), **kw)
         if kind == "hash-pooled":
-            return HashClient([self.addrs[0]] if "servers" not in kw else kw.pop("servers"), use_pooling=True, **kw)
+            return HashClient([spec] if "servers" not in kw else kw.pop("servers"), use_pooling=True, **kw)
         raise ValueError(kind)
 
     def tls(self):
